@@ -127,5 +127,9 @@ pub enum IterationError {
     /// WWen the query transport was UDP, this type of response is used by the
     /// server to signal that the client should retry via TCP to accommodate a
     /// response too large to be served via UDP.
+    ///
+    /// When the transport was TCP the message may simply be the first of
+    /// several: the interpreter is not finished and the following response
+    /// messages can be passed to it as usual.
     SingleSoaIxfrTcpRetrySignal,
 }
